@@ -7,3 +7,5 @@ pub mod line_index;
 pub mod symbol_map;
 pub mod tests;
 pub mod utils;
+#[cfg(tablegen_lsp_verif)]
+pub mod verif_hooks;
